@@ -22,157 +22,260 @@ fn any_type() -> HllType {
     }
 }
 
-//@ props: C14
-//@ tier: quick
-//@ timeout: 1800
-//@ functions: hll::sketch::HllSketch::deserialize
-//@ functions: hll::list::List::deserialize
-//@ functions: hll::hash_set::HashSet::deserialize
-//@ bounds: every byte string of length 0..=40 whose mode byte selects LIST or SET (array modes: c14_hll_array_any_bytes); all header bytes symbolic
-//@ desc: HllSketch::deserialize returns Ok or Err without panic (no shift overflow, no capacity overflow, no unreachable!, no out-of-bounds) for every list/set image; an Ok value can be queried, updated with any coupon and re-serialized without panicking
-#[kani::proof]
-#[kani::unwind(12)]
-#[kani::stub(alloc::fmt::format, stub_format)]
-fn c14_hll_coupon_modes_any_bytes() {
-    let img: [u8; 40] = kani::any();
+/// loop-free little-endian store
+fn put_le(b: &mut [u8], o: usize, v: u64, n: usize) {
+    b[o] = v as u8;
+    if n >= 2 {
+        b[o + 1] = (v >> 8) as u8;
+    }
+    if n >= 4 {
+        b[o + 2] = (v >> 16) as u8;
+        b[o + 3] = (v >> 24) as u8;
+    }
+    if n >= 8 {
+        b[o + 4] = (v >> 32) as u8;
+        b[o + 5] = (v >> 40) as u8;
+        b[o + 6] = (v >> 48) as u8;
+        b[o + 7] = (v >> 56) as u8;
+    }
+}
+
+// ---------------------------------------------------------------------------------------------
+// C14: every byte string. The mode byte (which sub-parser runs) and, for arrays, lg_k are literals per
+// instance - buffers are <= 64 bytes so that CBMC's constant propagation over array cells applies and
+// only that sub-parser is explored; every other byte and the length are symbolic.
+// ---------------------------------------------------------------------------------------------
+
+fn hll_coupon_any_bytes_case(mode_byte: u8, update_after: bool) {
+    let mut img: [u8; 40] = kani::any();
     let len: usize = kani::any();
     kani::assume(len <= 40);
-    kani::assume(img[7] & 3 <= 1);
+    img[7] = mode_byte;
     let r = HllSketch::deserialize(&img[..len]);
     kani::cover!(r.is_ok());
     kani::cover!(r.is_err());
     if let Ok(mut s) = r {
-        kani::cover!(matches!(s.mode, Mode::Set { .. }));
         let _ = s.is_empty();
         let _ = s.lg_config_k();
-        let c: u32 = kani::any();
-        kani::assume(c != 0 && (c >> 26) >= 1);
-        if s.lg_config_k >= 8 {
-            // (promotion to an array at lg_k < 8 is covered by the C02 harnesses)
-            s.update_with_coupon(c);
+        if update_after {
+            let c: u32 = kani::any();
+            kani::assume(c != 0 && (c >> 26) >= 1);
+            if s.lg_config_k >= 8 {
+                // (promotion to an array at lg_k < 8 is covered by the C02 harnesses)
+                s.update_with_coupon(c);
+            }
         }
-        let out = s.serialize();
-        core::mem::forget(out);
         core::mem::forget(s);
     } else {
         core::mem::forget(r);
     }
 }
 
+macro_rules! hll_coupon_any_bytes {
+    ($name:ident, $mode:expr, $upd:expr) => {
+        #[kani::proof]
+        #[kani::unwind(12)]
+        #[kani::stub(alloc::fmt::format, stub_format)]
+        fn $name() {
+            hll_coupon_any_bytes_case($mode, $upd);
+        }
+    };
+}
+
+//@ family: hll_coupon_any_bytes
 //@ props: C14
-//@ tier: quick
-//@ timeout: 1800
+//@ tier: thorough
+//@ timeout: 2400
+//@ functions: hll::sketch::HllSketch::deserialize
+//@ functions: hll::list::List::deserialize
+//@ functions: hll::hash_set::HashSet::deserialize
+//@ unwind: 12
+//@ stubs: alloc::fmt::format -> empty string
+//@ bounds: every byte string of length 0..=40 with the mode byte of the instance (LIST or SET x target type Hll4 / Hll8; 3 = invalid mode); all other header bytes, counts and coupons symbolic; the *_then_update instances also feed one symbolic coupon to an accepted sketch
+//@ desc: HllSketch::deserialize returns Ok or Err without panic (no shift overflow, no capacity overflow, no unreachable!, no out-of-bounds) for every list / set image; an Ok value can be queried (and updated) without panicking
+hll_coupon_any_bytes!(c14_hll_list_any_bytes, 0, false); //@ tier: quick
+hll_coupon_any_bytes!(c14_hll_set_any_bytes, 1 | (2 << 2), false); //@ tier: quick
+hll_coupon_any_bytes!(c14_hll_invalid_mode_any_bytes, 3, false); //@ tier: quick
+hll_coupon_any_bytes!(c14_hll_list_any_bytes_then_update, 0 | (1 << 2), true);
+hll_coupon_any_bytes!(c14_hll_set_any_bytes_then_update, 1, true);
+//@ endfamily: x
+
+fn hll_array_any_bytes_case(tgt: u8) {
+    let mut img: [u8; 64] = kani::any();
+    let len: usize = kani::any();
+    kani::assume(len <= 64);
+    img[7] = 2 | (tgt << 2);
+    img[3] = 4;
+    let r = HllSketch::deserialize(&img[..len]);
+    kani::cover!(r.is_ok());
+    kani::cover!(r.is_err());
+    if let Ok(s) = r {
+        let _ = s.is_empty();
+        core::mem::forget(s);
+    } else {
+        core::mem::forget(r);
+    }
+}
+
+macro_rules! hll_array_any_bytes {
+    ($name:ident, $tgt:expr) => {
+        #[kani::proof]
+        #[kani::unwind(18)]
+        #[kani::stub(alloc::fmt::format, stub_format)]
+        fn $name() {
+            hll_array_any_bytes_case($tgt);
+        }
+    };
+}
+
+//@ family: hll_array_any_bytes
+//@ props: C14
+//@ tier: thorough
+//@ timeout: 2400
 //@ functions: hll::sketch::HllSketch::deserialize
 //@ functions: hll::array4::Array4::deserialize
 //@ functions: hll::array6::Array6::deserialize
 //@ functions: hll::array8::Array8::deserialize
 //@ functions: hll::aux_map::AuxMap::insert
-//@ bounds: every byte string of length 0..=72 in HLL (array) mode with lg_k = 4 (16 registers); all other header bytes, the estimator fields, counts and payload symbolic
-//@ desc: HllSketch::deserialize returns Ok or Err without panic for every array-mode image at lg_k = 4; an Ok value can be queried (registers) and re-serialized without panicking
-#[kani::proof]
-#[kani::unwind(20)]
-#[kani::stub(alloc::fmt::format, stub_format)]
-fn c14_hll_array_any_bytes() {
-    let img: [u8; 72] = kani::any();
-    let len: usize = kani::any();
-    kani::assume(len <= 72);
-    kani::assume(img[7] & 3 == 2 && img[3] == 4);
-    let r = HllSketch::deserialize(&img[..len]);
-    kani::cover!(r.is_ok());
-    kani::cover!(r.is_err());
-    if let Ok(s) = r {
-        kani::cover!(matches!(s.mode, Mode::Array4(_)));
-        kani::cover!(matches!(s.mode, Mode::Array6(_)));
-        let _ = s.is_empty();
-        let out = s.serialize();
-        core::mem::forget(out);
-        core::mem::forget(s);
-    } else {
-        core::mem::forget(r);
+//@ unwind: 18
+//@ stubs: alloc::fmt::format -> empty string
+//@ bounds: every byte string of length 0..=64 in HLL (array) mode with lg_k = 4 (16 registers) and the target type of the instance (Hll4: up to 4 aux entries or a 4-int updatable aux table; Hll6; Hll8; 3 = invalid type); all other header bytes (flags, cur_min, lgArr), the estimator fields, counts and payload symbolic
+//@ desc: HllSketch::deserialize returns Ok or Err without panic for every array-mode image at lg_k = 4
+hll_array_any_bytes!(c14_hll_array4_any_bytes, 0); //@ tier: quick
+hll_array_any_bytes!(c14_hll_array6_any_bytes, 1); //@ tier: quick
+hll_array_any_bytes!(c14_hll_array8_any_bytes, 2); //@ tier: quick
+hll_array_any_bytes!(c14_hll_array_invalid_type_any_bytes, 3);
+//@ endfamily: x
+
+// ---------------------------------------------------------------------------------------------
+// C11 / C12 / C13 / C18: round trip against a SPEC ENCODER. The image is rebuilt from the documented
+// layout in an exact-size array (<= 64 bytes, structural fields as literals), the real serialize() must
+// equal it byte for byte, and the decoder is run on the spec image.
+// ---------------------------------------------------------------------------------------------
+
+macro_rules! same_words {
+    ($bytes:expr, $img:expr, $len:expr; $($i:expr),*) => { $(
+        if 8 * $i + 8 <= $len {
+            assert!(rd_u64(&$bytes, 8 * $i) == rd_u64(&$img, 8 * $i), "serialized bytes differ from the documented layout");
+        } else if 8 * $i + 4 <= $len {
+            assert!(rd_u32(&$bytes, 8 * $i) == rd_u32(&$img, 8 * $i), "serialized bytes differ from the documented layout");
+        }
+    )* };
+}
+
+
+/// two lists hold the same coupons in the same positions (the crate's own `==` on containers sorts copies of
+/// both coupon arrays - std sort does not get through symbolic execution)
+fn same_list(la: &List, lb: &List) {
+    let (ca, cb) = (la.container(), lb.container());
+    assert!(ca.len() == cb.len(), "coupon count differs");
+    assert!(ca.coupons.len() == 8 && cb.coupons.len() == 8, "a list holds a full-capacity array of 8");
+    let mut i = 0;
+    while i < 8 {
+        assert!(ca.coupons[i] == cb.coupons[i], "coupon differs");
+        i += 1;
     }
 }
 
+fn same_estimator(a: &crate::hll::estimator::HipEstimator, b: &crate::hll::estimator::HipEstimator) {
+    assert!(a.hip_accum().to_bits() == b.hip_accum().to_bits() && a.kxq0().to_bits() == b.kxq0().to_bits() && a.kxq1().to_bits() == b.kxq1().to_bits(), "estimator values changed");
+    assert!(a.is_out_of_order() == b.is_out_of_order(), "out-of-order flag changed");
+}
+
+/// List::serialize / List::deserialize at unit level (the dispatcher HllSketch::{serialize, deserialize} is
+/// c11_hll_deserialize_dispatch: a `match` on the mode enum is not constant-folded by symbolic execution, so
+/// going through the dispatcher explores the serializers of all five modes - measured: > 14 GB)
+fn list_roundtrip_case<const N: usize, const LEN: usize>(t: HllType, tgt: u8) {
+    let lg_k: u8 = kani::any();
+    kani::assume(lg_k >= 4 && lg_k <= 21);
+    let c: [u32; N] = kani::any();
+    let mut s = List::default();
+    let mut i = 0;
+    while i < N {
+        kani::assume(c[i] != 0);
+        let mut j = 0;
+        while j < i {
+            kani::assume(c[j] != c[i]);
+            j += 1;
+        }
+        s.update(c[i]);
+        i += 1;
+    }
+    // spec encoder: preInts 2, serVer 1, family 7, lgK, lgArr 3, flags (empty bit 2, compact bit 3), count, mode
+    let mut img = [0u8; LEN];
+    assert!(LEN == 8 + 4 * N);
+    img[0] = 2;
+    img[1] = 1;
+    img[2] = 7;
+    img[3] = lg_k;
+    img[4] = 3;
+    img[5] = 8 | (if N == 0 { 4 } else { 0 });
+    img[6] = N as u8;
+    img[7] = tgt << 2;
+    let mut i = 0;
+    while i < N {
+        put_le(&mut img, 8 + 4 * i, c[i] as u64, 4);
+        i += 1;
+    }
+    let bytes = s.serialize(lg_k, t);
+    assert!(bytes.len() == LEN, "list image is not 8 + 4c bytes");
+    same_words!(bytes, img, LEN; 0, 1, 2, 3, 4);
+    let cursor = crate::codec::SketchSlice::new(&img[8..]);
+    let r = List::deserialize(cursor, 3, N, N == 0, true);
+    let mut g = crate::verif_kani_common::expect_ok(r, "own image rejected");
+    same_list(&g, &s);
+    // behaves identically afterwards: one more coupon (stays a list while N < 7)
+    if N < 7 {
+        let x: u32 = kani::any();
+        kani::assume(x != 0);
+        let mut s2 = s.clone();
+        s2.update(x);
+        g.update(x);
+        same_list(&g, &s2);
+        core::mem::forget(s2);
+    }
+    kani::cover!(lg_k == 21);
+    core::mem::forget((s, g, bytes));
+}
+
+macro_rules! hll_list_roundtrip {
+    ($name:ident, $n:expr, $len:expr, $t:expr, $tgt:expr) => {
+        #[kani::proof]
+        #[kani::unwind(10)]
+        #[kani::stub(alloc::fmt::format, stub_format)]
+        fn $name() {
+            list_roundtrip_case::<$n, $len>($t, $tgt);
+        }
+    };
+}
+
+//@ family: hll_list_roundtrip
 //@ props: C11 C12 C18
-//@ tier: quick
+//@ tier: thorough
 //@ timeout: 1800
 //@ functions: hll::list::List::serialize
 //@ functions: hll::list::List::deserialize
-//@ functions: hll::sketch::HllSketch::serialize
-//@ functions: hll::sketch::HllSketch::deserialize
-//@ bounds: list-mode sketches with 0..=7 distinct symbolic coupons, every lg_k in 4..=21 and target type
-//@ desc: the list image is 8 + 4c bytes in the Java/C++ layout (preInts 2, serVer 1, family 7, lgK @3, lgArr @4, flags @5 (empty bit 2, compact bit 3), count @6, mode byte @7 = curMode | tgtType << 2, coupons u32 LE) as read by an independent decoder; deserialize(serialize(s)) holds the same coupon set and behaves like s under one further update (same resulting coupon set)
-#[kani::proof]
-#[kani::unwind(12)]
-#[kani::stub(alloc::fmt::format, stub_format)]
-fn c11_hll_list_roundtrip_layout() {
-    let lg_k: u8 = kani::any();
-    kani::assume(lg_k >= 8 && lg_k <= 21);
-    let t = any_type();
-    let n: usize = kani::any();
-    kani::assume(n <= 7);
-    let c: [u32; 7] = kani::any();
-    let mut s = HllSketch::new(lg_k, t);
-    let mut i = 0;
-    while i < 7 {
-        if i < n {
-            kani::assume(c[i] != 0);
-            let mut j = 0;
-            while j < i {
-                kani::assume(c[j] != c[i]);
-                j += 1;
-            }
-            s.update_with_coupon(c[i]);
-        }
-        i += 1;
-    }
-    let bytes = s.serialize();
-    assert!(bytes.len() == 8 + 4 * n, "list image is not 8 + 4c bytes");
-    assert!(bytes[0] == 2 && bytes[1] == 1 && bytes[2] == 7, "preInts / serVer / family");
-    assert!(bytes[3] == lg_k, "lg_k field");
-    assert!(bytes[4] == 3, "lg_arr field of a list");
-    assert!((bytes[5] & 4 != 0) == (n == 0), "empty flag");
-    assert!(bytes[5] & 8 != 0, "compact flag (the coupon array is written without gaps)");
-    assert!(bytes[6] as usize == n, "coupon count field");
-    assert!(bytes[7] & 3 == 0, "current mode = LIST");
-    assert!((bytes[7] >> 2) & 3 == t as u8, "target type");
-    let mut i = 0;
-    while i < n {
-        assert!(rd_u32(&bytes, 8 + 4 * i) == c[i], "coupon field");
-        i += 1;
-    }
-    let r = HllSketch::deserialize(&bytes);
-    let mut g = crate::verif_kani_common::expect_ok(r, "own image rejected");
-    assert!(g.lg_config_k() == lg_k && g.target_type() == t);
-    assert!(g == s, "deserialized list differs from the original");
-    // behaves identically afterwards: one more coupon
-    let x: u32 = kani::any();
-    kani::assume(x != 0);
-    let mut s2 = s.clone();
-    s2.update_with_coupon(x);
-    g.update_with_coupon(x);
-    assert!(g == s2, "deserialized sketch diverges from the original under a further update");
-    let again = g.serialize();
-    let direct = s2.serialize();
-    assert!(again.len() == direct.len());
-    kani::cover!(n == 7);
-    kani::cover!(n == 0);
-    core::mem::forget((s, s2, g, bytes, again, direct));
-}
+//@ functions: hll::list::List::update
+//@ unwind: 10
+//@ stubs: alloc::fmt::format -> empty string
+//@ bounds: coupon lists with the instance's number of distinct symbolic coupons (0, 1, 3, 7) and target type, every lg_k in 4..=21 (symbolic)
+//@ desc: serialize() equals, byte for byte, the image a spec encoder written from the Java/C++ format documentation produces - 8 + 4c bytes: preInts 2, serVer 1, family 7, lgK @3, lgArr 3 @4, flags @5 (empty bit 2, compact bit 3), count @6, mode byte @7 = curMode | tgtType << 2, coupons u32 LE; deserializing its payload gives an identical list that behaves like the original under one further update
+hll_list_roundtrip!(c11_hll_list_roundtrip_0, 0, 8, HllType::Hll4, 0); //@ tier: quick
+hll_list_roundtrip!(c11_hll_list_roundtrip_1, 1, 12, HllType::Hll8, 2); //@ tier: quick
+hll_list_roundtrip!(c11_hll_list_roundtrip_2, 2, 16, HllType::Hll6, 1); //@ tier: quick
+hll_list_roundtrip!(c11_hll_list_roundtrip_3, 3, 20, HllType::Hll6, 1);
+hll_list_roundtrip!(c11_hll_list_roundtrip_7, 7, 36, HllType::Hll8, 2);
+//@ endfamily: x
 
 use crate::hll::array6::verif_kani_hll_array6 as v6;
 use crate::hll::array8::verif_kani_hll_array8 as v8;
 use crate::hll::estimator::verif_kani_hll_estimator as ve;
 
-fn rd_f64_bits(b: &[u8], o: usize) -> u64 {
-    rd_u64(b, o)
-}
-
-fn any_estimator() -> crate::hll::estimator::HipEstimator {
+fn any_estimator(ooo: bool) -> crate::hll::estimator::HipEstimator {
     let hip: f64 = kani::any();
     let k0: f64 = kani::any();
     let k1: f64 = kani::any();
     kani::assume(hip.is_finite() && k0.is_finite() && k1.is_finite());
-    let ooo: bool = kani::any();
     let mut e = ve::raw_estimator(hip, k0, k1, false);
     if ooo {
         e.set_out_of_order(true);
@@ -194,92 +297,247 @@ fn any_regs16() -> ([u8; 16], u32) {
     (regs, z)
 }
 
-fn check_array_header(b: &[u8], e: &crate::hll::estimator::HipEstimator, zeros: u32, tgt: u8) {
-    assert!(b[0] == 10 && b[1] == 1 && b[2] == 7 && b[3] == 4, "preInts / serVer / family / lgK");
-    assert!((b[5] & 16 != 0) == e.is_out_of_order(), "out-of-order flag");
-    assert!(b[5] & 4 == 0, "empty flag on an array image");
-    assert!(b[7] == (2 | (tgt << 2)), "mode byte: HLL mode | target type << 2");
-    assert!(rd_f64_bits(b, 8) == e.hip_accum().to_bits() && rd_f64_bits(b, 16) == e.kxq0().to_bits() && rd_f64_bits(b, 24) == e.kxq1().to_bits(), "estimator fields");
-    assert!(rd_u32(b, 32) == zeros && rd_u32(b, 36) == 0, "numAtCurMin / auxCount");
+/// header of an array-mode image: preInts 10, serVer 1, family 7, lgK, lgArr 0, flags (out-of-order bit 4),
+/// curMin 0, mode byte = HLL | type << 2, HIP accumulator, kxq0, kxq1 as f64 @8/@16/@24, numAtCurMin u32
+/// @32, auxCount @36
+fn spec_array_header(img: &mut [u8], e: &crate::hll::estimator::HipEstimator, ooo: bool, zeros: u32, tgt: u8) {
+    img[0] = 10;
+    img[1] = 1;
+    img[2] = 7;
+    img[3] = 4;
+    img[4] = 0;
+    img[5] = if ooo { 16 } else { 0 };
+    img[6] = 0;
+    img[7] = 2 | (tgt << 2);
+    put_le(img, 8, e.hip_accum().to_bits(), 8);
+    put_le(img, 16, e.kxq0().to_bits(), 8);
+    put_le(img, 24, e.kxq1().to_bits(), 8);
+    put_le(img, 32, zeros as u64, 4);
+    put_le(img, 36, 0, 4);
 }
 
-//@ props: C11 C12 C13 C18
-//@ tier: quick
-//@ timeout: 1800
-//@ functions: hll::array8::Array8::serialize
-//@ functions: hll::array8::Array8::deserialize
-//@ functions: hll::sketch::HllSketch::serialize
-//@ functions: hll::sketch::HllSketch::deserialize
-//@ bounds: lg_k = 4: Hll8 array with all 16 registers (0..=63) and the estimator state (HIP accumulator, kxq0, kxq1: any finite f64; out-of-order flag) symbolic
-//@ desc: the Hll8 image is 40 + k bytes in the Java/C++ layout (preInts 10, serVer 1, family 7, lgK, flags with out-of-order bit 4, mode byte = HLL | type << 2, HIP accumulator, kxq0, kxq1 as f64 @8/@16/@24, numAtCurMin u32 @32, auxCount @36, registers @40) as read by an independent decoder; deserialize(serialize(s)) == s; the same bytes with the COMPACT flag set (the form Java/C++ emit by default) decode to the same sketch
-#[kani::proof]
-#[kani::unwind(60)]
-#[kani::stub(alloc::fmt::format, stub_format)]
-fn c11_hll_array8_roundtrip_layout() {
+fn array8_roundtrip_case(ooo: bool, compact: bool) {
     let (regs, zeros) = any_regs16();
-    let e = any_estimator();
-    let s8 = HllSketch::from_mode(4, Mode::Array8(v8::raw_array8(4, &regs, e.clone())));
-    let b8 = s8.serialize();
-    assert!(b8.len() == 40 + 16, "Hll8 image is not 40 + k bytes");
-    check_array_header(&b8, &e, zeros, 2);
+    let e = any_estimator(ooo);
+    let s8 = v8::raw_array8(4, &regs, e.clone());
+    let mut img = [0u8; 56];
+    spec_array_header(&mut img, &e, ooo, zeros, 2);
     let mut i = 0;
     while i < 16 {
-        assert!(b8[40 + i] == regs[i], "Hll8 register byte");
+        img[40 + i] = regs[i];
         i += 1;
     }
-    let mut img = [0u8; 56];
-    let mut i = 0;
-    while i < 56 {
-        img[i] = b8[i];
-        i += 1;
-    }
-    let compact: bool = kani::any();
+    let b8 = s8.serialize(4);
+    assert!(b8.len() == 40 + 16, "Hll8 image is not 40 + k bytes");
+    same_words!(b8, img, 56; 0, 1, 2, 3, 4, 5, 6);
     if compact {
-        img[5] |= 8;
+        img[5] |= 8; // the form Java / C++ emit by default (C13)
     }
-    let g8 = crate::verif_kani_common::expect_ok(HllSketch::deserialize(&img), "valid Hll8 image rejected");
-    assert!(g8 == s8, "Hll8 image (plain or COMPACT flag) decoded to different registers / estimator");
-    kani::cover!(compact && zeros == 3);
-    kani::cover!(!compact && e.is_out_of_order());
+    let cursor = crate::codec::SketchSlice::new(&img[8..]);
+    let g8 = crate::verif_kani_common::expect_ok(Array8::deserialize(cursor, 4, compact, ooo), "valid Hll8 image rejected");
+    let mut i = 0;
+    while i < 16 {
+        assert!(g8.get(i as u32) == regs[i], "Hll8 image (plain or COMPACT flag) decoded to different registers");
+        i += 1;
+    }
+    same_estimator(v8::estimator_of(&g8), &e);
+    assert!(v8::num_zeros_of(&g8) == zeros, "zero-register count changed");
+    kani::cover!(zeros == 3);
     core::mem::forget((s8, g8, b8));
 }
 
+macro_rules! hll_array8_roundtrip {
+    ($name:ident, $ooo:expr, $compact:expr) => {
+        #[kani::proof]
+        #[kani::unwind(18)]
+        #[kani::stub(alloc::fmt::format, stub_format)]
+        fn $name() {
+            array8_roundtrip_case($ooo, $compact);
+        }
+    };
+}
+
+//@ family: hll_array8_roundtrip
 //@ props: C11 C12 C13 C18
-//@ tier: quick
+//@ tier: thorough
 //@ timeout: 1800
-//@ functions: hll::array6::Array6::serialize
-//@ functions: hll::array6::Array6::deserialize
-//@ functions: hll::sketch::HllSketch::deserialize
-//@ bounds: lg_k = 4: Hll6 array with all 16 registers (0..=63) and the estimator state symbolic
-//@ desc: the Hll6 image is 40 + 3k/4 + 1 bytes, registers packed LSB-first 6 bits each @40; header as for Hll8 with target type 1; round trip restores the sketch, also with the COMPACT flag set
-#[kani::proof]
-#[kani::unwind(60)]
-#[kani::stub(alloc::fmt::format, stub_format)]
-fn c11_hll_array6_roundtrip_layout() {
+//@ functions: hll::array8::Array8::serialize
+//@ functions: hll::array8::Array8::deserialize
+//@ unwind: 18
+//@ stubs: alloc::fmt::format -> empty string
+//@ bounds: lg_k = 4: Hll8 array with all 16 registers (0..=63) and the estimator values (HIP accumulator, kxq0, kxq1: any finite f64) symbolic; out-of-order flag and the COMPACT flag of the decoded image per instance
+//@ desc: serialize() equals, byte for byte, the spec image of 40 + k bytes (preInts 10, serVer 1, family 7, lgK, flags with out-of-order bit 4, mode byte = HLL | type << 2, estimator f64s @8/@16/@24, numAtCurMin @32, auxCount @36, registers @40); deserializing it - plain or with the COMPACT flag set, the form Java/C++ emit by default - gives back an equal sketch
+hll_array8_roundtrip!(c11_hll_array8_roundtrip_plain, false, false); //@ tier: quick
+hll_array8_roundtrip!(c11_hll_array8_roundtrip_ooo_compact, true, true); //@ tier: quick
+hll_array8_roundtrip!(c11_hll_array8_roundtrip_compact, false, true);
+//@ endfamily: x
+
+fn array6_roundtrip_case(ooo: bool, compact: bool) {
     let (regs, zeros) = any_regs16();
-    let e = any_estimator();
-    let s6 = HllSketch::from_mode(4, Mode::Array6(v6::array6_from_regs(4, &regs, e.clone())));
-    let b6 = s6.serialize();
-    assert!(b6.len() == 40 + 13, "Hll6 image is not 40 + 3k/4 + 1 bytes");
-    check_array_header(&b6, &e, zeros, 1);
+    let e = any_estimator(ooo);
+    let s6 = v6::array6_from_regs(4, &regs, e.clone());
+    let mut img = [0u8; 56];
+    spec_array_header(&mut img, &e, ooo, zeros, 1);
+    // registers packed LSB-first, 6 bits each, from byte 40; the image is 40 + 3k/4 + 1 = 53 bytes
     let mut i = 0;
     while i < 16 {
-        assert!(v6::spec_get6(&b6[40..], i) == regs[i], "Hll6 register not at its LSB-first 6-bit position");
+        let bit = 6 * i;
+        let v = (regs[i] as u16) << (bit % 8);
+        img[40 + bit / 8] |= v as u8;
+        img[40 + bit / 8 + 1] |= (v >> 8) as u8;
         i += 1;
     }
-    let mut img = [0u8; 53];
-    let mut i = 0;
-    while i < 53 {
-        img[i] = b6[i];
-        i += 1;
-    }
-    let compact: bool = kani::any();
+    let b6 = s6.serialize(4);
+    assert!(b6.len() == 40 + 13, "Hll6 image is not 40 + 3k/4 + 1 bytes");
+    same_words!(b6, img, 53; 0, 1, 2, 3, 4, 5, 6);
+    assert!(b6[52] == img[52]);
     if compact {
         img[5] |= 8;
     }
-    let g6 = crate::verif_kani_common::expect_ok(HllSketch::deserialize(&img), "valid Hll6 image rejected");
-    assert!(g6 == s6, "Hll6 image (plain or COMPACT flag) decoded to different registers / estimator");
-    kani::cover!(compact);
-    kani::cover!(!compact && zeros == 2);
+    let cursor = crate::codec::SketchSlice::new(&img[8..53]);
+    let g6 = crate::verif_kani_common::expect_ok(Array6::deserialize(cursor, 4, compact, ooo), "valid Hll6 image rejected");
+    let mut i = 0;
+    while i < 16 {
+        assert!(g6.get(i as u32) == regs[i], "Hll6 image (plain or COMPACT flag) decoded to different registers");
+        i += 1;
+    }
+    same_estimator(v6::estimator_of(&g6), &e);
+    assert!(v6::num_zeros_of(&g6) == zeros, "zero-register count changed");
+    kani::cover!(zeros == 2);
     core::mem::forget((s6, g6, b6));
+}
+
+macro_rules! hll_array6_roundtrip {
+    ($name:ident, $ooo:expr, $compact:expr) => {
+        #[kani::proof]
+        #[kani::unwind(18)]
+        #[kani::stub(alloc::fmt::format, stub_format)]
+        fn $name() {
+            array6_roundtrip_case($ooo, $compact);
+        }
+    };
+}
+
+//@ family: hll_array6_roundtrip
+//@ props: C11 C12 C13 C18
+//@ tier: thorough
+//@ timeout: 1800
+//@ functions: hll::array6::Array6::serialize
+//@ functions: hll::array6::Array6::deserialize
+//@ unwind: 18
+//@ stubs: alloc::fmt::format -> empty string
+//@ bounds: lg_k = 4: Hll6 array with all 16 registers (0..=63) and the estimator values symbolic; out-of-order and COMPACT flag per instance
+//@ desc: serialize() equals, byte for byte, the spec image of 40 + 3k/4 + 1 bytes, registers packed LSB-first 6 bits each @40, header as for Hll8 with target type 1; round trip restores the sketch, also with the COMPACT flag set
+hll_array6_roundtrip!(c11_hll_array6_roundtrip_plain, false, false); //@ tier: quick
+hll_array6_roundtrip!(c11_hll_array6_roundtrip_ooo_compact, true, true); //@ tier: quick
+//@ endfamily: x
+
+// ---------------------------------------------------------------------------------------------
+// The dispatcher HllSketch::deserialize: header fields are routed to the right sub-parser with the right
+// arguments (sub-parsers replaced by recorders; they are covered at unit level above and in hll_array4.rs)
+// ---------------------------------------------------------------------------------------------
+
+static mut CALLED: u8 = 0; // 1 list, 2 set, 3 array4, 4 array6, 5 array8
+static mut ARGS: (usize, usize, u8, u8, bool, bool, bool) = (0, 0, 0, 0, false, false, false); // lg_arr, count, cur_min, lg_k, empty, compact, ooo
+
+fn rec_list(_c: crate::codec::SketchSlice, lg_arr: usize, coupon_count: usize, empty: bool, compact: bool) -> Result<List, Error> {
+    unsafe {
+        CALLED = 1;
+        ARGS = (lg_arr, coupon_count, 0, 0, empty, compact, false);
+    }
+    Ok(List::default())
+}
+fn rec_set(_c: crate::codec::SketchSlice, lg_arr: usize, compact: bool) -> Result<HashSet, Error> {
+    unsafe {
+        CALLED = 2;
+        ARGS = (lg_arr, 0, 0, 0, false, compact, false);
+    }
+    Ok(HashSet::default())
+}
+fn rec_array4(_c: crate::codec::SketchSlice, cur_min: u8, lg_k: u8, lg_aux_arr: u8, compact: bool, ooo: bool) -> Result<Array4, Error> {
+    unsafe {
+        CALLED = 3;
+        ARGS = (lg_aux_arr as usize, 0, cur_min, lg_k, false, compact, ooo);
+    }
+    Ok(Array4::new(4))
+}
+fn rec_array6(_c: crate::codec::SketchSlice, lg_k: u8, compact: bool, ooo: bool) -> Result<Array6, Error> {
+    unsafe {
+        CALLED = 4;
+        ARGS = (0, 0, 0, lg_k, false, compact, ooo);
+    }
+    Ok(Array6::new(4))
+}
+fn rec_array8(_c: crate::codec::SketchSlice, lg_k: u8, compact: bool, ooo: bool) -> Result<Array8, Error> {
+    unsafe {
+        CALLED = 5;
+        ARGS = (0, 0, 0, lg_k, false, compact, ooo);
+    }
+    Ok(Array8::new(4))
+}
+
+//@ props: C11 C12 C13 C14
+//@ tier: quick
+//@ timeout: 900
+//@ functions: hll::sketch::HllSketch::deserialize
+//@ functions: hll::serialization::extract_cur_mode
+//@ functions: hll::serialization::extract_tgt_hll_type
+//@ stubs: List / HashSet / Array4 / Array6 / Array8 ::deserialize -> recorders of their arguments (the sub-parsers are covered at unit level)
+//@ bounds: every 8-byte header (all bytes symbolic) followed by any payload length 0..=8
+//@ desc: HllSketch::deserialize routes the image by the documented header: family 7, serVer 1, lg_k in 4..=21, mode byte low 2 bits = LIST/SET/HLL with preInts 2/3/10, target type bits 2-3; flags bit 2 empty, bit 3 compact, bit 4 out-of-order; byte 4 lgArr, byte 6 = coupon count (list) / cur_min (Hll4); a set only with lg_k >= 8 and lgArr <= lg_k - 3; anything else is an error, never a panic
+#[kani::proof]
+#[kani::unwind(4)]
+#[kani::stub(alloc::fmt::format, stub_format)]
+#[kani::stub(List::deserialize, rec_list)]
+#[kani::stub(HashSet::deserialize, rec_set)]
+#[kani::stub(Array4::deserialize, rec_array4)]
+#[kani::stub(Array6::deserialize, rec_array6)]
+#[kani::stub(Array8::deserialize, rec_array8)]
+fn c11_hll_deserialize_dispatch() {
+    let img: [u8; 16] = kani::any();
+    let len: usize = kani::any();
+    kani::assume(len >= 8 && len <= 16);
+    unsafe {
+        CALLED = 0;
+    }
+    let r = HllSketch::deserialize(&img[..len]);
+    let (pre, ser, fam, lg_k, lg_arr, flags, state, mode) = (img[0], img[1], img[2], img[3], img[4], img[5], img[6], img[7]);
+    let cur = mode & 3;
+    let tgt = (mode >> 2) & 3;
+    let header_ok = fam == 7 && ser == 1 && lg_k >= 4 && lg_k <= 21 && tgt <= 2;
+    let want: u8 = if !header_ok {
+        0
+    } else if cur == 0 && pre == 2 {
+        1
+    } else if cur == 1 && pre == 3 && lg_k >= 8 && lg_arr <= lg_k - 3 {
+        2
+    } else if cur == 2 && pre == 10 {
+        3 + tgt
+    } else {
+        0
+    };
+    let called = unsafe { CALLED };
+    assert!(called == want, "image routed to the wrong sub-parser (or accepted / rejected against the documented header rules)");
+    assert!(r.is_ok() == (want != 0));
+    let a = unsafe { ARGS };
+    let (empty, compact, ooo) = (flags & 4 != 0, flags & 8 != 0, flags & 16 != 0);
+    if want == 1 {
+        assert!(a.0 == lg_arr as usize && a.1 == state as usize && a.4 == empty && a.5 == compact, "list arguments");
+    } else if want == 2 {
+        assert!(a.0 == lg_arr as usize && a.5 == compact, "set arguments");
+    } else if want == 3 {
+        assert!(a.0 == lg_arr as usize && a.2 == state && a.3 == lg_k && a.5 == compact && a.6 == ooo, "Hll4 arguments");
+    } else if want >= 4 {
+        assert!(a.3 == lg_k && a.5 == compact && a.6 == ooo, "Hll6 / Hll8 arguments");
+    }
+    if let Ok(g) = &r {
+        assert!(g.lg_config_k() == lg_k);
+        assert!(g.target_type() as u8 == tgt || want >= 3, "target type of a coupon-mode sketch");
+    }
+    kani::cover!(want == 1);
+    kani::cover!(want == 2);
+    kani::cover!(want == 3);
+    kani::cover!(want == 5);
+    kani::cover!(want == 0 && header_ok);
+    core::mem::forget(r);
 }
